@@ -9,7 +9,8 @@ A recursive-descent reading of one data item at offset `p` of a buffer, for a ne
 * `err malformed pos` — reserved / unsupported initial byte at offset `pos`;
 * `err syntax pos`    — a complete head that is illegal where it stands ends at `pos` (break outside an
                         indefinite item or in value position of a map; a non-chunk inside a chunked string);
-* `err mem pos`       — the head ending at `pos` would open nesting level `L + 1`.
+* `err mem pos`       — the head ending at `pos` would open nesting level `L + 1`, or declares storage that
+                        cannot be allocated (`okA`).
 
 `lazy = true` is libcbor's reporting order for an illegal item inside a chunked string: an item that itself
 opens a container is read to its end (errors inside it win) and the SYNTAXERROR is reported where it ends.
@@ -54,7 +55,12 @@ def Tok.opens : Tok → Bool
 /-- head at offset `p` of the buffer `(get, len)` -/
 def headAt (get : Nat → UInt8) (len p : Nat) : HeadRes := decodeHead (fun i => get (p + i)) (len - p)
 
-variable (lz : Bool) (L : Nat) (get : Nat → UInt8) (len : Nat)
+/-- `okA tok`: can the storage the head `tok` declares (payload of a definite string, slots of a definite
+array or map) be allocated?  `fun _ => true` is "memory permitting"; libcbor itself refuses counts whose
+byte size does not fit in `size_t`. -/
+abbrev AllocOk := Tok → Bool
+
+variable (lz : Bool) (L : Nat) (okA : AllocOk) (get : Nat → UInt8) (len : Nat)
 
 mutual
 /-- one data item at offset `p`, with `d` nesting levels already open -/
@@ -66,6 +72,7 @@ def item : Nat → Nat → Nat → Res Item
     | .error => .err .malformed p
     | .ok tok l =>
       let q := p + l
+      if !okA tok then .err .mem q else
       match tok with
       | .uint w v => .ok (.uint w v) q
       | .negint w v => .ok (.negint w v) q
@@ -168,6 +175,7 @@ def chunks : Nat → Nat → Nat → Nat → List (List UInt8) → Res (List (Li
     | .nedata _ => .err .notEnough p
     | .error => .err .malformed p
     | .ok tok l =>
+      if !okA tok then .err .mem (p + l) else
       match tok with
       | .brk => .ok acc.reverse (p + l)
       | .bytes o n => if mt = 2 then chunks f mt (p + l) d (slice get (p + o) n :: acc) else .err .syntax (p + l)
@@ -189,7 +197,7 @@ deriving Repr, Inhabited
 
 def decode : Outcome :=
   if len = 0 then .nodata else
-  match item lz L get len (2 * len + 3) 0 0 with
+  match item lz L okA get len (2 * len + 3) 0 0 with
   | .ok x q => .ok x q
   | .err e p => .fail e p
 
